@@ -50,13 +50,16 @@ HttpResult(k) ==
     [] k = "http10" -> <<101, FALSE>>       \* (ws_handler means to refuse anything but HTTP/1.1 with 505, but the server resets the
                                             \*  version before calling it; the upgrade of an HTTP/1.0 request is accepted - observation)
     [] k \in {"no_host", "no_upgrade", "wrong_proto", "no_proto", "bad_key", "bad_wsver"} -> <<400, FALSE>>
+    [] k = "many_headers" -> <<101, FALSE>>  \* more header bytes than the server's 8160-byte read buffer, every line short: a good request
+    [] k = "long_header" -> <<431, FALSE>>   \* one header line that can never fit the read buffer: refused, the rest of it discarded
+    [] k = "long_uri" -> <<414, FALSE>>      \* ... the request line
     [] k = "wrong_path" -> <<404, FALSE>>
     [] k = "post" -> <<405, FALSE>>
     [] k = "bad_version" -> <<505, FALSE>>
     [] k = "chunked" -> <<501, TRUE>>
     [] k = "garbage" -> <<0, TRUE>>           \* not HTTP at all: no response, connection dropped
     [] k = "short_close" -> <<0, TRUE>>       \* the peer went away inside the request
-HttpKinds == {"ok", "http10", "no_host", "no_upgrade", "wrong_proto", "no_proto", "bad_key", "bad_wsver", "wrong_path", "post",
+HttpKinds == {"ok", "many_headers", "long_header", "long_uri", "http10", "no_host", "no_upgrade", "wrong_proto", "no_proto", "bad_key", "bad_wsver", "wrong_path", "post",
               "bad_version", "chunked", "garbage", "short_close"}
 Http(c, k) ==
   /\ Role = "server" /\ phase[c] = "http" /\ nitems < MaxItems /\ nitems' = nitems + 1
